@@ -111,3 +111,75 @@ int ctl_no_collapse(int fd, char *a, char *b, size_t n)
 		return ret;
 	return ret == 0;
 }
+
+/* E7: allocation failure leaves through the failure label with the status still 0 */
+int ctl_fail_zero(int fd, char **out);
+int ctl_fail_set(int fd, char **out);
+int ctl_fail_zero(int fd, char **out)
+{
+	char b[8];
+	char *p = NULL;
+	int ret = ctl_can_fail(fd, b, sizeof(b));
+	if (ret != 0)
+		goto fail;
+	p = malloc(16);
+	if (p == NULL)
+		goto fail;				/* ret is 0 here */
+	memcpy(p, b, 8);
+	*out = p;
+	return 0;
+fail:
+	free(p);
+	*out = NULL;
+	return ret;
+}
+
+int ctl_fail_set(int fd, char **out)
+{
+	char b[8];
+	char *p = NULL;
+	int ret = ctl_can_fail(fd, b, sizeof(b));
+	if (ret != 0)
+		goto fail;
+	p = malloc(16);
+	if (p == NULL) {
+		ret = -1;
+		goto fail;
+	}
+	memcpy(p, b, 8);
+	*out = p;
+	return 0;
+fail:
+	free(p);
+	*out = NULL;
+	return ret;
+}
+
+/* E8: a failure is taken for "not available, try the next one" */
+int ctl_try_next(const int *fds, int n);
+int ctl_try_next_told(const int *fds, int n);
+int ctl_try_next(const int *fds, int n)
+{
+	char b[8];
+	int i;
+	for (i = 0; i < n; ++i) {
+		int ret = ctl_can_fail(fds[i], b, sizeof(b));
+		if (ret == 0)
+			return i;
+	}
+	return n;
+}
+
+int ctl_try_next_told(const int *fds, int n)
+{
+	char b[8];
+	int i;
+	for (i = 0; i < n; ++i) {
+		int ret = ctl_can_fail(fds[i], b, sizeof(b));
+		if (ret == 0)
+			return i;
+		if (ret != -2)
+			return -1;
+	}
+	return n;
+}
